@@ -116,8 +116,18 @@ func main() {
 			sizeCase(h, ci, r) // the real size estimates fed to sampler.Add
 		case c06 && ci%6 == 2:
 			hostCase(h, ci, r) // the real Aggregator.calcHostMetricBudgets
+		case !c06 && ci%8 == 6:
+			// 2-4 consecutive sampler runs that hand their SamplerBuffers on, as Aggregator.rowDataMarshalAppendPositions does
+			// between inserts (`SamplerBuffers: buffers` ... `return res, sampler.SamplerBuffers, ...`); each run has its own rows
+			var buffers data_model.SamplerBuffers
+			n := r.Range(2, 4)
+			h.Stat("seq.cases", 1)
+			for k := 0; k < n; k++ {
+				runCase(h, ci, r, c06, &buffers)
+			}
+			h.NonTrivial("seq:shared-buffers")
 		default:
-			runCase(h, ci, r, c06)
+			runCase(h, ci, r, c06, nil)
 		}
 	})
 	h.Done()
@@ -140,7 +150,9 @@ func pickWeight(r *verifx.Rng) int64 {
 	}
 }
 
-func runCase(h *verifx.H, ci int, r *verifx.Rng, c06 bool) {
+// runCase: one bucket through one sampler. `shared` (may be nil) are the SamplerBuffers of the previous sampler of a
+// sequence; the buffers of this sampler are handed back through it.
+func runCase(h *verifx.H, ci int, r *verifx.Rng, c06 bool, shared *data_model.SamplerBuffers) {
 	// ---------------------------------------------------------------- configuration
 	mode := "rand"
 	if c06 {
@@ -376,15 +388,29 @@ func runCase(h *verifx.H, ci int, r *verifx.Rng, c06 bool) {
 		}
 		return ds
 	}
+	foreign := 0 // decisions about rows that were not handed to THIS sampler (rows of an earlier run left in the buffers)
+	lookup := func(it *data_model.MultiItem) *row {
+		if rw := byItem[it]; rw != nil {
+			return rw
+		}
+		foreign++
+		return &row{id: -1, selCall: -1}
+	}
 	cfg.KeepF = func(it *data_model.MultiItem, _ uint32, quota uint32) {
-		rw := byItem[it]
+		rw := lookup(it)
+		if rw.id < 0 {
+			return
+		}
 		rw.nKeep++
 		rw.sf = it.SF
 		rw.quota = quota
 		order = append(order, rw.id)
 	}
 	cfg.DiscardF = func(it *data_model.MultiItem, _ uint32) {
-		rw := byItem[it]
+		rw := lookup(it)
+		if rw.id < 0 {
+			return
+		}
 		rw.nDiscard++
 		rw.sf = it.SF
 		order = append(order, rw.id)
@@ -415,7 +441,7 @@ func runCase(h *verifx.H, ci int, r *verifx.Rng, c06 bool) {
 		cfg.SelectF = func(s []data_model.SamplingMultiItemPair, sf float64, rnd *rand.Rand) int {
 			c := &selCall{sf: sf, kept: map[int]bool{}}
 			for i := range s {
-				rw := byItem[s[i].Item]
+				rw := lookup(s[i].Item)
 				rw.selCall, rw.selPos = len(calls), i
 				c.ids = append(c.ids, rw.id)
 			}
@@ -430,7 +456,7 @@ func runCase(h *verifx.H, ci int, r *verifx.Rng, c06 bool) {
 			draws = append(draws, c.draws...)
 			c.n = n
 			for i := 0; i < n && i < len(s); i++ {
-				c.kept[byItem[s[i].Item].id] = true
+				c.kept[lookup(s[i].Item).id] = true
 			}
 			calls = append(calls, c)
 			return n
@@ -439,7 +465,7 @@ func runCase(h *verifx.H, ci int, r *verifx.Rng, c06 bool) {
 		cfg.SelectF = func(s []data_model.SamplingMultiItemPair, sf float64, _ *rand.Rand) int {
 			c := &selCall{sf: sf, kept: map[int]bool{}}
 			for i := range s {
-				rw := byItem[s[i].Item]
+				rw := lookup(s[i].Item)
 				rw.selCall, rw.selPos = len(calls), i
 				c.ids = append(c.ids, rw.id)
 			}
@@ -470,13 +496,30 @@ func runCase(h *verifx.H, ci int, r *verifx.Rng, c06 bool) {
 				panicked = strings.ReplaceAll(fmt.Sprint(e), " ", "_")
 			}
 		}()
+		if shared != nil {
+			cfg.SamplerBuffers = *shared
+		}
 		s := data_model.NewSampler(cfg)
+		defer func() {
+			if shared != nil {
+				*shared = s.SamplerBuffers
+			}
+		}()
 		for _, rw := range rows {
 			s.Add(data_model.SamplingMultiItemPair{Item: rw.item, WhaleWeight: float64(rw.whale), Size: rw.size, MetricID: rw.metric, Budget: rw.budget, BucketTs: 1})
 		}
 		s.Run(budget)
 		groups = data_model.VerifMetricGroups(s.MetricGroups)
 	}()
+	if foreign > 0 {
+		// every row handed to a sampler is decided exactly once BY THAT sampler: a later sampler that receives the buffers must
+		// start empty (NewSampler truncates them)
+		h.Op("cfg %s v=fix agent=0 single=0 disns=0 budgets=0 ns=0 grp=0 keys=0 meta=0 dns=0 dgrp=0 budget=0", mode)
+		h.Op("run")
+		h.Obs("foreign-decisions %d", foreign)
+		h.Viol("row-decided-in-later-run", "a sampler that was handed the SamplerBuffers of an earlier run issued %d keep/discard decisions about rows of that earlier run (besides its own %d rows)", foreign, len(rows))
+		return
+	}
 	if ambiguous { // a draw within 1e-9 of a decision boundary: float rounding could decide, the exact model cannot be compared
 		h.Stat("skipped.ambiguous", 1)
 		return
